@@ -36,7 +36,7 @@ def gen_params(rng: random.Random):
         "duration": duration, "ticks_per_second": tps, "waiting_seconds_mean": wsm,
         "num_pipelines": rng.choice([1, 1, 2, 4]), "num_operators": rng.choice([1, 2, 3, 5]),
         "interactive_prob": ip, "query_prob": qp, "batch_prob": bp, "cpu_io_ratio": rng.choice([0.0, 0.2, 0.5, 0.9, 1.0]),
-        "scheduler_algo": policy, "num_pools": 2 if policy == "priority-pool" else rng.choice([1, 2, 3]),
+        "scheduler_algo": policy, "num_pools": 2 if policy == "priority-pool" else rng.choice([1, 2, 3, 3, 6, 13]),
         "cpus_per_pool": rng.choice([16, 64]) if productive else rng.choice([1, 4, 16, 64]),
         "ram_gb_per_pool": rng.choice([256, 1000]) if productive else rng.choice([0.5, 8, 64, 256, 1000]),
         "multi_operator_containers": True if policy == "priority-pool" else rng.random() < 0.5,
